@@ -659,8 +659,10 @@ class History:
                         # stage allows again is tried
                         self.blacklist_ops()
                         self.confirm(r.choice(self.users), 'ok')
-                if r.random() < 0.06 and self.users:
+                if r.random() < 0.06 and self.users and not self.twin:
                     # settlement attempts in the middle of a step, also once the claim round is reached
+                    # (not in twin mode: in the single-call twin the step is already complete, so the
+                    # attempt would legitimately succeed there and the two histories would diverge)
                     cfg = self.view('config') or [self.conf, self.ws, self.claim]
                     if r.random() < 0.6:
                         self.round = max(self.round, cfg[2]) + r.choice([0, 0, 1, 7])
